@@ -1,0 +1,6 @@
+//go:build !verif
+
+package ugo
+
+// verifSync is a no-op without the build tag `verif` (see hooks_verif.go).
+func verifSync(string) {}
